@@ -1164,10 +1164,10 @@ pub fn exec_op(dir: &Path, idx: usize, op: &IoOp, stats: &mut Stats, pre: Option
     // 0. Which comes first, the call or the in-memory rendering it is compared with? Normally the
     // rendering (fault positions are relative to its length). But an in-memory rendering made
     // right before the call also *primes* whatever the crate remembers from its last encode, and
-    // would hide a `to_file` that trusts such a memory too much. So fault-free PNG exports take
-    // the other order every second time: `to_file` first, `to_bytes` afterwards.
+    // would hide a `to_file` that trusts such a memory too much. So fault-free exports take the
+    // other order every second time: `to_file` first, `to_str` / `to_bytes` afterwards.
     if pre.is_none()
-        && op.kind == Kind::Png
+        && op.pad_to.is_none()
         && op.plan.is_empty()
         && op.rlimit.is_none()
         && op.crash_at.is_none()
@@ -1651,7 +1651,10 @@ fn exec_op_call_first(dir: &Path, idx: usize, op: &IoOp, stats: &mut Stats, mut 
         Ok(Err(_)) => return skip(rep, "qr_err", stats),
         Err(_) => return skip(rep, "qr_panic", stats),
     };
-    let b = img_builder_from(&op.setters);
+    let (svg_b, img_b) = match op.kind {
+        Kind::Svg => (Some(svg_builder_from(&op.setters)), None),
+        Kind::Png => (None, Some(img_builder_from(&op.setters))),
+    };
     let wd = match op.cwd % 3 {
         0 => dir.to_path_buf(),
         1 => dir.join("cwd-b"),
@@ -1677,10 +1680,16 @@ fn exec_op_call_first(dir: &Path, idx: usize, op: &IoOp, stats: &mut Stats, mut 
         _ => {}
     }
     shim::arm(Plan::default());
-    let outcome = catch_unwind(AssertUnwindSafe(|| b.to_file(&qr, &path).map_err(|e| format!("{:?}", e))));
+    let outcome = catch_unwind(AssertUnwindSafe(|| match op.kind {
+        Kind::Svg => svg_b.as_ref().unwrap().to_file(&qr, &path).map_err(|e| format!("{:?}", e)),
+        Kind::Png => img_b.as_ref().unwrap().to_file(&qr, &path).map_err(|e| format!("{:?}", e)),
+    }));
     let delivered = shim::disarm();
     // only now the in-memory rendering
-    let expected = match catch_unwind(AssertUnwindSafe(|| b.to_bytes(&qr))) {
+    let expected = match catch_unwind(AssertUnwindSafe(|| match op.kind {
+        Kind::Svg => Ok(svg_b.as_ref().unwrap().to_str(&qr).into_bytes()),
+        Kind::Png => img_b.as_ref().unwrap().to_bytes(&qr).map_err(|_| ()),
+    })) {
         Ok(Ok(e)) => e,
         Ok(Err(_)) => return skip(rep, "render_err", stats),
         Err(_) => return skip(rep, "render_panic", stats),
